@@ -4,6 +4,7 @@
 (*    d1 -+- s1 (a/t) -+- p1 (a) p2 (b)                                    *)
 (*        |            +- s3 (a/t) --- p4 (a)                              *)
 (*        +- s2 (b/t) --- p3 (a)                                           *)
+(*        +- s4 (a/u)      (same name as s1, another type: valid)          *)
 (* every sequence of at most MaxMut mutations: cleared / unspecified       *)
 (* types, names equal to ids, shared ids (as keep_id clones produce),      *)
 (* duplicate sibling names, dependencies naming an existing / a missing    *)
@@ -15,12 +16,13 @@
 EXTENDS Naturals, Sequences, FiniteSets, TLC, Json
 CONSTANTS MaxMut
 VARIABLES g, nmut
-SecH == {"s1", "s2", "s3"}
+SecH == {"s1", "s2", "s3", "s4"}
 PropH == {"p1", "p2", "p3", "p4"}
 All == SecH \cup PropH
 Base(x) == IF x \in SecH
-           THEN [name |-> IF x = "s2" THEN "b" ELSE "a", type |-> "t", idof |-> x, scard |-> "none", pcard |-> "none"]
-           ELSE [name |-> IF x = "p2" THEN "b" ELSE "a", idof |-> x, dep |-> "none", depval |-> "none",
+           THEN [name |-> IF x = "s2" THEN "b" ELSE "a", type |-> IF x = "s4" THEN "u" ELSE "t", idof |-> x, scard |-> "none", pcard |-> "none"]
+           ELSE [name |-> IF x = "p2" THEN "b" ELSE "a", idof |-> x, dep |-> IF x = "p2" THEN "a" ELSE "none",       \* p2 depends on p1, satisfied
+                 depval |-> IF x = "p2" THEN "first" ELSE "none",
                  vals |-> "text", vcard |-> "none", dtypeok |-> TRUE]
 Init == g = [x \in All |-> Base(x)] /\ nmut = 0
 Mut(x) ==
@@ -28,9 +30,9 @@ Mut(x) ==
    {[f |-> "idof", v |-> y] : y \in (All \cup {"d1"}) \ {x}} \cup
    (IF x \in SecH THEN {[f |-> "type", v |-> t] : t \in {"none", "n.s.", "u"}} \cup
                        {[f |-> c, v |-> v] : c \in {"scard", "pcard"}, v \in {"max1", "min1", "min3", "1to1", "1to2", "2to2"}}
-    ELSE {[f |-> "dep", v |-> d] : d \in {"a", "b", "zz"}} \cup
+    ELSE {[f |-> "dep", v |-> d] : d \in {"a", "b", "zz", "none"}} \cup
          {[f |-> "depval", v |-> d] : d \in {"first", "later", "part", "other"}} \cup
-         {[f |-> "vals", v |-> d] : d \in {"ints", "empty", "one", "tup2", "tup12", "tup2bad", "tup12bad"}} \cup
+         {[f |-> "vals", v |-> d] : d \in {"ints", "empty", "one", "tup2", "tup12", "tup2bad", "tup12bad", "bools", "dates"}} \cup
          {[f |-> "vcard", v |-> v] : v \in {"max1", "min1", "min3", "1to1", "1to2", "2to2"}} \cup
          {[f |-> "dtypeok", v |-> FALSE]})
 Next == /\ nmut < MaxMut /\ nmut' = nmut + 1
